@@ -55,20 +55,6 @@ let fnv64 (s : string) : string =
 let ints sep s = if s = "-" || s = "" then [] else L.map int_of_string (S.split_on_char sep s)
 let show_path p = if p = [] then "-" else S.concat "." (L.map string_of_int p)
 
-(* the path descend took in a pass is not an output of iter_step; it is read off the trees: the node whose simulation count
-   went up and that is deepest / the node that received children *)
-let rec changed_path (a : Mcts.tree) (b : Mcts.tree) : int list =
-  let Mcts.T (_, _, _, _, _, ca) = a and Mcts.T (_, _, _, _, _, cb) = b in
-  if ca = [] then []
-  else begin
-    let rec find i la lb = match la, lb with
-      | x :: ra, y :: rb -> if x == y || x = y then find (i + 1) ra rb else Some (i, x, y)
-      | _, _ -> None in
-    match find 0 ca cb with
-    | Some (i, x, y) -> i :: changed_path x y
-    | None -> []
-  end
-
 let rec node_at (path : int list) (t : Mcts.tree) : Mcts.tree option =
   match path with
   | [] -> Some t
@@ -93,6 +79,7 @@ let handle (fs : string list) : string * string option * string option =
     let sc = score cf in
     let get_move = Mcts.get_move Float.neg_infinity (-100.0) 100.0 10.0 sc f_gt f_eq in
     let iter_step = Mcts.iter_step Float.neg_infinity (-100.0) 100.0 10.0 sc f_gt f_eq in
+    let descend = Mcts.descend Float.neg_infinity (-100.0) 100.0 10.0 sc f_gt f_eq in   (* only to print the path of a pass *)
     (* L1: the whole GetMove *)
     let res = get_move cfg (nat_of_int fuel) perm p rs in
     let move_s, verdict = match res with
@@ -109,7 +96,7 @@ let handle (fs : string list) : string * string option * string option =
         if k = 0 then (Move.Ok (t, rs))
         else match iter_step cfg t rs with
           | Move.Ok ((t', brk), rs') ->
-            let path = changed_path t t' in
+            let path = (match descend t rs with Move.Ok (pa, _) -> L.map int_of_nat pa | _ -> []) in
             items := (show_path path, (if brk then "break" else val_of path t t'), fnv64 (dump t')) :: !items;
             if brk then Move.Ok (t', rs') else go (k - 1) t' rs'
           | Move.Panic -> Move.Panic
